@@ -4,7 +4,8 @@
 From Coq Require Import List Arith Bool Lia ZifyBool.
 From Crusta Require Import Spec.AF Model.Store Model.Graph Model.Solvers.
 From Crusta Require Import Proofs.StoreBase Proofs.StoreProofs Proofs.GroundedProofs Proofs.CompProofs.
-From Crusta Require Import Proofs.Decomp Proofs.EncSpec Proofs.SolverWhole Proofs.TopBase Proofs.TopGaps.
+From Crusta Require Import Sat.Cnf Sat.Prog Model.Encoders.
+From Crusta Require Import Proofs.Decomp Proofs.EncSpec Proofs.SolverBasics Proofs.SolverWhole Proofs.TopBase Proofs.TopMax Proofs.SolverTop Proofs.TopGaps.
 From Crusta Require Export Proofs.LabelRouteDefs.
 Import ListNotations.
 
@@ -802,3 +803,188 @@ Proof.
 Qed.
 
 End ModelComponents.
+
+(* ------------------------------------------------------------------------------------------ *)
+(** * 8. When the [unwrap] on the attacked side panics: exactly on a list that is not closed *)
+
+Lemma index_of_Some_In l a i : index_of l a = Some i -> In a l.
+Proof. intros H. destruct (index_of_Some _ _ _ H) as [H1 H2]. rewrite <- H2. now apply nth_In. Qed.
+
+Lemma ea_fold_None ids all : fold_left (ea_step ids) all None = None.
+Proof. induction all as [|p r IH]; cbn [fold_left ea_step]; [reflexivity|exact IH]. Qed.
+
+Lemma extract_atts_None ids : forall all acc,
+  fold_left (ea_step ids) all (Some acc) = None <->
+  exists a b, In (a, b) all /\ In a ids /\ ~ In b ids.
+Proof.
+  induction all as [|[a b] r IH]; intros acc; cbn [fold_left ea_step fst snd].
+  - split; [discriminate|intros [a [b [[] _]]]].
+  - destruct (index_of ids a) as [i|] eqn:Ea.
+    + destruct (index_of ids b) as [j|] eqn:Eb.
+      * rewrite IH. split; intros [a' [b' [H1 [H2 H3]]]]; exists a', b'.
+        -- split; [now right|tauto].
+        -- destruct H1 as [E|H1]; [|tauto]. injection E as <- <-. exfalso. apply H3.
+           exact (index_of_Some_In _ _ _ Eb).
+      * rewrite ea_fold_None. split; [|reflexivity]. intros _. exists a, b.
+        split; [now left|]. split; [exact (index_of_Some_In _ _ _ Ea)|now apply index_of_None].
+    + rewrite IH. split; intros [a' [b' [H1 [H2 H3]]]]; exists a', b'.
+      * split; [now right|tauto].
+      * destruct H1 as [E|H1]; [|tauto]. injection E as <- <-. exfalso.
+        now apply (index_of_None ids a).
+Qed.
+
+Lemma extract_cc_None g ids :
+  extract_cc g ids = None <-> exists a b, In (a, b) (g_atts g) /\ In a ids /\ ~ In b ids.
+Proof.
+  unfold extract_cc. rewrite extract_atts_fold, <- (extract_atts_None ids (g_atts g) []).
+  destruct (fold_left (ea_step ids) (g_atts g) (Some [])); split; congruence.
+Qed.
+
+(* ------------------------------------------------------------------------------------------ *)
+(** * 9. The statements of Properties/C04labels.v (every store reachable by an update history) *)
+
+Section Statements.
+Variable L : Type.
+Variable leqb : L -> L -> bool.
+Hypothesis leqb_spec : forall x y, leqb x y = true <-> x = y.
+Notation reachable := (GroundedProofs.reachable L leqb).
+
+Theorem label_route_component : forall f : fw L, reachable f ->
+  forall ids, NoDup ids -> (forall a, In a ids -> In a (live_ids L f)) ->
+  max_argument_id L f <> None ->
+  match extract_cc (view_of_fw f) ids with
+  | None => comp_store L leqb f ids = None
+  | Some c =>
+      exists cf labels, comp_store L leqb f ids = Some cf /\ labels_of L f ids = Some labels /\
+        Forall2 (fun a l => In (a, l) (iter_args L f)) ids labels /\
+        iter_args L cf = combine (seq 0 (length ids)) labels /\
+        n_arguments L cf = length ids /\
+        iter_attacks L cf = atts (c_af c) /\
+        view_same (view_of_af (c_af c)) (view_of_fw cf) /\
+        CompProofs.af_of cf = c_af c
+  end.
+Proof.
+  intros f Hr ids Hnd Hlive Hmax.
+  exact (comp_store_extract L leqb leqb_spec f ids (reach_inv L leqb leqb_spec f Hr) (conj Hnd Hlive) Hmax).
+Qed.
+
+Theorem label_route_panic : forall f : fw L, reachable f ->
+  forall ids, NoDup ids -> (forall a, In a ids -> In a (live_ids L f)) ->
+  (max_argument_id L f = None -> comp_store L leqb f ids = None) /\
+  (max_argument_id L f <> None ->
+     (comp_store L leqb f ids = None <->
+      exists a b, In (a, b) (iter_attacks L f) /\ In a ids /\ ~ In b ids)).
+Proof.
+  intros f Hr ids Hnd Hlive. split; [apply comp_store_no_slot|]. intros Hmax.
+  pose proof (label_route_component f Hr ids Hnd Hlive Hmax) as H.
+  pose proof (extract_cc_None (view_of_fw f) ids) as Hn. cbn [view_of_fw g_atts] in Hn.
+  rewrite <- Hn. destruct (extract_cc (view_of_fw f) ids) as [c|].
+  - destruct H as [cf [labels [H1 _]]]. rewrite H1. split; discriminate.
+  - tauto.
+Qed.
+
+Theorem label_route_local : forall f : fw L, reachable f ->
+  forall c cf, NoDup (c_ids c) -> (forall a, In a (c_ids c) -> In a (live_ids L f)) ->
+  comp_store L leqb f (c_ids c) = Some cf ->
+  (forall a, to_local_lab L leqb f cf a = cc_local c a) /\
+  (forall a, to_local_lab L leqb f cf a = None <-> ~ In a (c_ids c)) /\
+  (forall al, locals_lab L leqb f cf al = locals c al).
+Proof.
+  intros f Hr c cf Hnd Hlive Hcs. pose proof (reach_inv L leqb leqb_spec f Hr) as Hinv.
+  pose proof (to_local_lab_cc L leqb leqb_spec f c cf Hinv (conj Hnd Hlive) Hcs) as H.
+  split; [exact H|]. split.
+  - intros a. rewrite H. apply cc_local_None.
+  - exact (locals_lab_eq L leqb leqb_spec f c cf Hinv (conj Hnd Hlive) Hcs).
+Qed.
+
+Theorem label_route_global : forall f : fw L, reachable f ->
+  forall c cf, NoDup (c_ids c) -> (forall a, In a (c_ids c) -> In a (live_ids L f)) ->
+  comp_store L leqb f (c_ids c) = Some cf ->
+  (forall i, i < length (c_ids c) ->
+     exists l, to_global_lab L leqb f cf i = Some (cc_global c i, l) /\
+               In (cc_global c i, l) (iter_args L f)) /\
+  (forall i, length (c_ids c) <= i -> to_global_lab L leqb f cf i = None) /\
+  (forall la, (forall i, In i la -> i < length (c_ids c)) ->
+     exists pairs, lift_lab L leqb f cf la = Some pairs /\
+       with_labels L f (lift c la) = Some pairs /\
+       map fst pairs = lift c la /\ incl pairs (iter_args L f) /\
+       (NoDup la -> NoDup pairs /\ NoDup (map snd pairs))).
+Proof.
+  intros f Hr c cf Hnd Hlive Hcs. pose proof (reach_inv L leqb leqb_spec f Hr) as Hinv.
+  split; [|split].
+  - intros i Hi. exact (proj2 (to_global_lab_cc L leqb leqb_spec f c cf Hinv (conj Hnd Hlive) Hcs i Hi)).
+  - exact (to_global_lab_out L leqb leqb_spec f c cf Hinv (conj Hnd Hlive) Hcs).
+  - exact (lift_lab_spec L leqb leqb_spec f c cf Hinv (conj Hnd Hlive) Hcs).
+Qed.
+
+Theorem label_route_answer : forall f : fw L, reachable f -> max_argument_id L f <> None ->
+  forall ccs Ls,
+  (forall c, In c ccs -> NoDup (c_ids c) /\ (forall a, In a (c_ids c) -> In a (live_ids L f)) /\
+                         extract_cc (view_of_fw f) (c_ids c) = Some c) ->
+  Forall2 (fun c La => forall i, In i La -> i < length (c_ids c)) ccs Ls ->
+  exists cfs pairs,
+    comp_stores L leqb f ccs = Some cfs /\
+    Forall2 (fun c cf => view_same (view_of_af (c_af c)) (view_of_fw cf)) ccs cfs /\
+    glue_lab L leqb f cfs Ls = Some pairs /\
+    with_labels L f (glue ccs Ls) = Some pairs /\
+    map fst pairs = glue ccs Ls /\ incl pairs (iter_args L f) /\
+    (NoDup (glue ccs Ls) -> NoDup pairs /\ NoDup (map snd pairs)).
+Proof.
+  intros f Hr Hmax ccs Ls Hall H2. pose proof (reach_inv L leqb leqb_spec f Hr) as Hinv.
+  assert (Hgood : forall c, In c ccs -> good_ids L f (c_ids c)).
+  { intros c Hc. destruct (Hall c Hc) as [G1 [G2 _]]. now split. }
+  destruct (comp_stores_exist L leqb leqb_spec f Hinv Hmax ccs) as [cfs [Hcfs HF]].
+  { intros c Hc. split; [now apply Hgood|]. now apply Hall. }
+  destruct (glue_lab_spec L leqb leqb_spec f Hinv ccs Ls H2 cfs Hgood Hcfs) as [pairs Hp].
+  exists cfs, pairs. split; [exact Hcfs|]. split; [|exact Hp].
+  eapply Forall2_impl; [|exact HF]. cbn beta. intros c cf H. tauto.
+Qed.
+
+Theorem label_route_model_components : forall f : fw L, reachable f ->
+  (forall c, In c (all_comps (view_of_fw f)) ->
+     max_argument_id L f <> None /\
+     NoDup (c_ids c) /\ (forall a, In a (c_ids c) -> In a (live_ids L f)) /\
+     extract_cc (view_of_fw f) (c_ids c) = Some c) /\
+  (forall al, max_argument_id L f <> None -> (forall a, In a al -> In a (live_ids L f)) ->
+     forall c, In c (merged_comps (view_of_fw f) al) ->
+     NoDup (c_ids c) /\ (forall a, In a (c_ids c) -> In a (live_ids L f)) /\
+     extract_cc (view_of_fw f) (c_ids c) = Some c).
+Proof.
+  intros f Hr. split.
+  - intros c Hc. destruct (all_comps_model L leqb leqb_spec f Hr c Hc) as [[[G1 G2] G3] G4]. tauto.
+  - intros al Hmax Hal c Hc.
+    destruct (merged_comps_model L leqb leqb_spec f al Hr Hmax Hal c Hc) as [[G1 G2] G3]. tauto.
+Qed.
+
+(* the id-based answers of the model, read in the caller's argument set *)
+Theorem answers_in_callers_arguments : forall f : fw L, reachable f ->
+  forall oracle thr, valid_oracle oracle -> 1 <= thr ->
+  forall s q e al fuel cert st0, supported s q -> enc_ok s e ->
+  al_ok s q (GroundedProofs.af_of L f) al ->
+  forall Lx,
+  (exists st, run_query oracle thr fuel s q cert e (view_of_fw f) al st0 = Done (OExt (Some Lx)) st) \/
+  (exists b st, run_query oracle thr fuel s q cert e (view_of_fw f) al st0 = Done (OAcc b (Some Lx)) st) ->
+  exists pairs, with_labels L f Lx = Some pairs /\ map fst pairs = Lx /\
+    incl pairs (iter_args L f) /\ NoDup pairs /\ NoDup (map snd pairs).
+Proof.
+  intros f Hr oracle thr Hv Ht s q e al fuel cert st0 Hs He Ha Lx Hrun.
+  pose proof (reach_inv L leqb leqb_spec f Hr) as Hinv.
+  pose proof (view_good_store L leqb leqb_spec f Hr) as Hvg.
+  assert (H : NoDup Lx /\ incl Lx (live_ids L f)).
+  { destruct q.
+    - pose proof (top_single_extension oracle thr _ _ Hv Ht Hvg s e al fuel cert st0 Hs He) as H.
+      destruct Hrun as [[st E]|[b [st E]]]; rewrite E in H; [|destruct H].
+      destruct H as [_ [H1 H2]]. split; [exact H1|exact H2].
+    - assert (Hq : QDC <> QSE) by discriminate.
+      pose proof (top_certificates oracle thr _ _ Hv Ht Hvg s QDC e al fuel cert st0 Hq Hs He Ha) as H.
+      destruct Hrun as [[st E]|[b [st E]]]; rewrite E in H; [destruct H|].
+      destruct H as [_ [_ [_ [H1 [H2 _]]]]]. split; [exact H1|exact H2].
+    - assert (Hq : QDS <> QSE) by discriminate.
+      pose proof (top_certificates oracle thr _ _ Hv Ht Hvg s QDS e al fuel cert st0 Hq Hs He Ha) as H.
+      destruct Hrun as [[st E]|[b [st E]]]; rewrite E in H; [destruct H|].
+      destruct H as [_ [_ [_ [H1 [H2 _]]]]]. split; [exact H1|exact H2]. }
+  destruct H as [H1 H2].
+  exact (with_labels_answer L f Lx Hinv H1 H2).
+Qed.
+
+End Statements.
